@@ -167,7 +167,7 @@ impl C12 {
                 items.push(EnumItem { doc: di, kinds });
             }
             for n in 0..d.inv.n_pages.min(if tier == Tier::Quick { 2 } else { 6 }) {
-                items.push(EnumItem { doc: di, kinds: vec![Op::GetPage(n), Op::PageWalk(n), Op::LazyAnnots(n), Op::LazyFont(n)] });
+                items.push(EnumItem { doc: di, kinds: vec![Op::GetPage(n), Op::PageWalk(n), Op::LazyAnnots(n), Op::LazyFont(n), Op::Trees] });
             }
         }
         let arity = Self::arity(tier);
@@ -187,7 +187,7 @@ impl C12 {
 
     fn random_runs(tier: Tier) -> u64 {
         match tier {
-            Tier::Quick => 30_000,
+            Tier::Quick => 100_000,
             Tier::Thorough => 2_000_000,
         }
     }
@@ -240,7 +240,13 @@ impl C12 {
                 6 => Op::GetPage(rng.below(n_pages + 1) as u32),
                 7 => Op::PageWalk(rng.below(n_pages) as u32),
                 8 => Op::LazyAnnots(rng.below(n_pages) as u32),
-                _ => Op::LazyFont(rng.below(n_pages) as u32),
+                _ => {
+                    if rng.chance(1, 3) {
+                        Op::Trees
+                    } else {
+                        Op::LazyFont(rng.below(n_pages) as u32)
+                    }
+                }
             };
             ops_v.push(op);
         }
